@@ -219,6 +219,22 @@ func forgeries() []ident {
 			}
 		}
 	}
+	// well-formed identities whose (correct!) digest lies OUTSIDE fd00::/8:
+	// address == digest, but not a Mycoria address.
+	for _, first := range []byte{0xfc, 0xfe, 0xfd ^ 0x80, 0x20, 0x00, 0xff} {
+		for tries := 0; tries < 200000; tries++ {
+			pub, pr, _ := ed25519.GenerateKey(d)
+			id := ident{hash: crop.BLAKE3, typ: "Ed25519", key: pub, priv: pr}
+			dg := refDigest(id)
+			if dg[0] != first {
+				continue
+			}
+			id.ip = netip.AddrFrom16([16]byte(dg[:16]))
+			id.note = fmt.Sprintf("self-consistent identity outside fd00::/8 (first byte %#x)", first)
+			out = append(out, id)
+			break
+		}
+	}
 	return out
 }
 
@@ -513,7 +529,7 @@ func epPeeringRequest(t *testing.T, id ident) (v verdict) {
 func TestC01(t *testing.T) {
 	env := kit.GetEnv()
 	rep := kit.NewReport("C01", env)
-	rep.Rule = "per base identity: the valid identity, every single field deviation (128 address bit flips + 7 foreign/invalid addresses, 14 other known + 4 unknown hash names incl. empty and 300-byte, 5 key-type names incl. empty/256-byte, 256 key bit flips + 5 odd key sizes + zero key, 3 easing values) at all six entry points; every PAIR of deviations of different fields at the pure entry points; ~50 self-consistent forgeries (address recomputed as the digest of a malformed identity: 5 hashes x 5 key-type names x 6 key sizes) at all entry points; presentation sequences bad->good and good->bad on one long-lived router; generator over all subsets of a 5-prefix acceptable alphabet x all subsets of a 4-prefix ignore alphabet x maxEasing {0,3} (satisfiable ones + cheap unsatisfiable ones); non-trivial = case deviates from the valid identity; distinct = distinct (identity, entry point)"
+	rep.Rule = "per base identity: the valid identity, every single field deviation (128 address bit flips + 7 foreign/invalid addresses, 14 other known + 4 unknown hash names incl. empty and 300-byte, 5 key-type names incl. empty/256-byte, 256 key bit flips + 5 odd key sizes + zero key, 3 easing values) at all six entry points; every PAIR of deviations of different fields at the pure entry points; ~50 self-consistent forgeries (address recomputed as the digest of a malformed identity: 5 hashes x 5 key-type names x 6 key sizes) and 6 well-formed identities whose matching digest lies outside fd00::/8, at all entry points; presentation sequences bad->good and good->bad on one long-lived router; generator over all subsets of a 5-prefix acceptable alphabet x all subsets of a 4-prefix ignore alphabet x maxEasing {0,3} (satisfiable ones + cheap unsatisfiable ones); non-trivial = case deviates from the valid identity; distinct = distinct (identity, entry point)"
 	rep.Assumptions = []string{
 		"the reference predicate uses crop's hash primitives (not m/address.go) to recompute digests",
 		"key material inside the generator comes from the process RNG: the prefix-configuration space is exhaustive, the key space cannot be",
@@ -686,6 +702,8 @@ func fieldClass(id ident) string {
 	switch {
 	case n == "valid":
 		return "valid"
+	case strings.HasPrefix(n, "self-consistent identity outside"):
+		return "matching-digest-outside-fd00/8"
 	case strings.HasPrefix(n, "self-consistent"):
 		if id.typ != "Ed25519" {
 			return "forgery-unknown-keytype"
